@@ -558,6 +558,27 @@ fn check_type_relation<T: TypeLookup>(
                 return false;
             }
 
+            // Two partials overlap when the fields they both name overlap: a field only one of
+            // them names is unconstrained in the other (`(x: 'int)` and `(x: 'int, y: 'int)`
+            // share `[x: 0, y: 0]`).
+            if mode == UnionMode::Any {
+                return fields2.iter().all(|(fname2, ftype2)| {
+                    fields1
+                        .iter()
+                        .filter(|(fname1, _)| fname1 == fname2)
+                        .all(|(_, ftype1)| {
+                            check_type_relation(
+                                *ftype1,
+                                *ftype2,
+                                lookup,
+                                mode,
+                                assumptions,
+                                type_stack,
+                            )
+                        })
+                });
+            }
+
             // All fields in pattern must exist in self with compatible types
             fields2.iter().all(|(fname2, ftype2)| {
                 fields1.iter().any(|(fname1, ftype1)| {
